@@ -29,7 +29,78 @@ const (
 	CVC5    = "cvc5"     // plain cvc5 (floating point, bit-level)
 	Z3New   = "z3-new"   // z3 5.1.0
 	Z3Old   = "z3"       // z3 4.8.12
+	// one fresh, non-incremental cvc5 process per query: cvc5's incremental mode
+	// switches off preprocessing that decides non-linear (symbolic x symbolic)
+	// integer queries in well under a second
+	CVC5IntOnce = "cvc5-int-once"
 )
+
+// checkOnce runs a one-shot solver process on the query.
+func (s *Solver) checkOnce(kind string, q *Query, wantModel bool, limit time.Duration) (Result, Model, error) {
+	st := s.Stats[kind]
+	if st == nil {
+		st = &Stats{}
+		s.Stats[kind] = st
+	}
+	st.Calls++
+	t0 := time.Now()
+	ms := fmt.Sprint(int(limit / time.Millisecond))
+	cmd := exec.Command("cvc5", "--produce-models", "--solve-bv-as-int=sum", "--lang=smt2", "--tlimit="+ms)
+	var sb strings.Builder
+	sb.WriteString("(set-logic ALL)\n")
+	sb.WriteString(q.Text)
+	sb.WriteString("(check-sat)\n")
+	if wantModel && len(q.Vars) > 0 {
+		sb.WriteString("(get-value (")
+		for _, v := range q.Vars {
+			sb.WriteString(symName(v.Name) + " ")
+		}
+		sb.WriteString("))\n")
+	}
+	cmd.Stdin = strings.NewReader(sb.String())
+	done := make(chan struct{})
+	var out []byte
+	go func() {
+		out, _ = cmd.Output()
+		close(done)
+	}()
+	select {
+	case <-done:
+	case <-time.After(limit + 5*time.Second):
+		if cmd.Process != nil {
+			cmd.Process.Kill()
+		}
+		<-done
+	}
+	d := time.Since(t0)
+	st.Time += d
+	if d > st.MaxTime {
+		st.MaxTime = d
+	}
+	text := strings.TrimSpace(string(out))
+	first, rest, _ := strings.Cut(text, "\n")
+	switch strings.TrimSpace(first) {
+	case "unsat":
+		st.Unsat++
+		return Unsat, nil, nil
+	case "sat":
+		st.Sat++
+		if wantModel && len(q.Vars) > 0 {
+			if strings.Contains(rest, "(error") {
+				return Unknown, nil, fmt.Errorf("model error: %s", trunc(rest, 200))
+			}
+			m, err := parseModel(strings.TrimSpace(rest), q.Vars)
+			if err != nil {
+				return Unknown, nil, fmt.Errorf("model parse: %v", err)
+			}
+			return Sat, m, nil
+		}
+		return Sat, nil, nil
+	}
+	st.Unknown++
+	s.dump(kind, q, "unknown: "+trunc(text, 100))
+	return Unknown, nil, nil
+}
 
 type proc struct {
 	kind string
@@ -177,6 +248,9 @@ func (s *Solver) Check(kind string, q *Query, wantModel bool) (Result, Model, er
 // CheckT is Check with a per-call deadline (the process is killed and restarted
 // when the deadline passes).
 func (s *Solver) CheckT(kind string, q *Query, wantModel bool, limit time.Duration) (Result, Model, error) {
+	if kind == CVC5IntOnce {
+		return s.checkOnce(kind, q, wantModel, limit)
+	}
 	st := s.Stats[kind]
 	if st == nil {
 		st = &Stats{}
@@ -382,12 +456,20 @@ func parseValue(e *sexp, w int) (Value, error) {
 		case "false":
 			return Value{0, 0}, nil
 		}
+		if len(e.atom) > 0 && e.atom[0] >= '0' && e.atom[0] <= '9' {
+			n, err := strconv.ParseUint(e.atom, 10, 64)
+			return Value{n & maskLo(w), 0}, err
+		}
 		lo, hi, _, err := bitsOf(e.atom)
 		return Value{lo, hi}, err
 	}
 	l := e.list
 	if len(l) == 0 {
 		return Value{}, fmt.Errorf("empty value")
+	}
+	if l[0].atom == "-" && len(l) == 2 && l[1].list == nil {
+		n, err := strconv.ParseUint(l[1].atom, 10, 64)
+		return Value{uint64(-int64(n)) & maskLo(w), 0}, err
 	}
 	// (_ bvN w)
 	if l[0].atom == "_" && len(l) >= 3 {
